@@ -136,6 +136,28 @@ def build_family(ctx, imp, tag):
         if dm in res:
             adms.append(res[dm])
         arm.delete_graph()
+    # a quarter of the families: a connection between two elements that several models share is carried by ONE of those models
+    # only (the others list both elements without it) - the union still has it, and only that model contributed it
+    if len(adms) >= 2 and rng.random() < 0.25:
+        import networkx as nx
+        G = canon.raw_storage(imp).graphs
+        per = {}
+        for n, dct in G.nodes(data=True):
+            per.setdefault(dct.get('GraphID'), {})[dct.get('NodeID')] = n
+        ids = [a.graph_id for a in adms]
+        cand = {}
+        for g in ids:
+            inv = {v: k for k, v in per.get(g, {}).items()}
+            for a, b in G.subgraph(list(inv)).edges():
+                cand.setdefault(canon._key(inv[a], inv[b]), []).append((g, a, b))
+        shared_edges = sorted(k for k, l in cand.items() if len(l) >= 2)
+        if shared_edges:
+            k = rng.choice(shared_edges)
+            keep = rng.choice(cand[k])[0]
+            for g, a, b in cand[k]:
+                if g != keep:
+                    G.remove_edge(a, b)
+            ctx.count('family:connection-between-shared-elements-in-one-model-only')
     return adms, [m.script for m in models]
 
 
@@ -212,6 +234,24 @@ def check_merged(ctx, w, cbm_snap, snaps, order):
     return ok
 
 
+def leftover_connections(cur, snaps, merged):
+    """Connections of the combined model that none of the models merged at the moment has, but a model that is not (any more)
+    merged does: what an unmerge left behind between elements that stay."""
+    if not cur:
+        return []
+    have = set()
+    for g in merged:
+        have |= set(snaps[g]['edges'])
+    gone = set()
+    for g, sn in snaps.items():
+        if g not in merged:
+            gone |= set(sn['edges'])
+    return sorted(e for e in cur['edges'] if e not in have and e in gone)
+
+
+KEEPS_CONNECTION = 'C14/unmerge-keeps-connection-only-the-unmerged-model-contributed'
+
+
 def one_family(ctx, imp, tag):
     CBM = cbm_class()
     adms, scripts = build_family(ctx, imp, tag)
@@ -275,6 +315,12 @@ def one_family(ctx, imp, tag):
                     ctx.count('clause:merge-unmerge-inverse')
                     cbm.unmerge_adm(graph_id=g)
                     back = canon.graph_snapshot(imp, cbm.graph_id)
+                    lo = leftover_connections(back, snaps, list(order[:pos]))
+                    if lo:
+                        ctx.violation(KEEPS_CONNECTION, 'unmerging a model removes exactly what only it contributed - a connection between two '
+                                      'elements that other models contribute too included', dict(w, order=list(order[:pos + 1]), unmerged=g, connections=lo))
+                        cbm.merge_adm(adm=by_id[g])
+                        continue
                     if sem_graph(back or {'nodes': {}, 'edges': {}}) != sem_graph(before or {'nodes': {}, 'edges': {}}):
                         ctx.violation('C14/unmerge-does-not-restore', 'merge followed by unmerge restores the previous combined model',
                                       dict(w, order=list(order[:pos + 1]), unmerged=g,
@@ -386,6 +432,11 @@ def one_family(ctx, imp, tag):
                     continue
                 ctx.seen([fh, hist], bool(shared))
                 cur = canon.graph_snapshot(imp, cbm.graph_id)
+                lo = leftover_connections(cur, snaps, list(merged))
+                if lo:
+                    ctx.violation(KEEPS_CONNECTION, 'unmerging a model removes exactly what only it contributed - a connection between two '
+                                  'elements that other models contribute too included', dict(w, history=hist, connections=lo))
+                    break       # what follows would be judged on a combined model that is already off
                 if merged:
                     if not check_merged(ctx, dict(w, history=hist), cur, snaps, list(merged)):
                         return
